@@ -148,6 +148,11 @@ def run(ctx, w):
     stale(ctx, w, S, R, term_dump)
     reprint(ctx, w, S, R, term_dump)
     buffer_dump(ctx, w, S, R, term_dump)
+    # state the dump cannot express must not exist: stale parameter cells behind the high-water mark (hidden parser state),
+    # and a tab table that is not sorted / unique / below the width (the replay `CSI n \` CSI W` normalises it)
+    from rules import c03, c18, tables
+    shared.embed(ctx, w, lambda c, ww: c03.run_t7(c, ww, tables.parser_tables(ww)))
+    shared.embed(ctx, w, c18.run)
 
 
 # ---- U1 -------------------------------------------------------------------------------------
